@@ -127,9 +127,9 @@ theorem accounts_lib_shutdown (l : LibO) : Accounts l.foot (libShutdown l) LibO.
   accounts_of_spec ((libShutdown_spec l).toG [] (fun _ => []) (by simp))
 theorem safe_uthread_current (l : LibO) : Safe l.foot (curThread l) :=
   safe_of_spec ((curThread_spec l).toG [] (fun _ => []) (by simp))
-theorem safe_thread_run (l : LibO) (t : Option TlsO) (b : Bool) : Safe (l.foot ++ optTls t) (threadRun l t b) :=
+theorem safe_thread_run (l : LibO) (t : Option TlsO) (b : ThrOpt) : Safe (l.foot ++ optTls t) (threadRun l t b) :=
   safe_of_spec ((threadRun_spec l t b).toG [] (fun _ => []) (by simp))
-theorem accounts_thread_run (l : LibO) (t : Option TlsO) (b : Bool) :
+theorem accounts_thread_run (l : LibO) (t : Option TlsO) (b : ThrOpt) :
     Accounts (l.foot ++ optTls t) (threadRun l t b) (fun r => optL ThreadO.foot r.1 ++ r.2.1.foot ++ optTls r.2.2) :=
   accounts_of_spec ((threadRun_spec l t b).toG [] (fun _ => []) (by simp))
 
